@@ -7,6 +7,7 @@ import (
 	"strings"
 
 	tls "github.com/refraction-networking/utls"
+	"github.com/refraction-networking/utls/zz_verif/simrand"
 	"github.com/refraction-networking/utls/zz_verif/simrt"
 )
 
@@ -27,7 +28,7 @@ func init() {
 	Register("C11", &Info{
 		Run:   runC11,
 		Quick: 10000, Thor: 400000,
-		Rule: "worlds as in C10 plus optional resumption histories (second connection over a shared session cache); for every handshake that completed on both sides: version, cipher suite, ALPN, curve (where both APIs expose it), DidResume, ECHAccepted and server name (== SNI on the wire, empty if none) are compared between the client's ConnectionState and the server's, and ExportKeyingMaterial is compared for drawn label/context/length; non-trivial = handshake completed on both sides; distinct = (fingerprint, plan, resumed, exporter arguments)",
+		Rule: "worlds as in C10 plus optional resumption histories (second connection over a shared session cache); in 30% of the worlds the server holds ECH keys although the client offers no real ECH (parrots with a GREASE ECH extension make the server try and fail to open it); for every handshake that completed on both sides: version, cipher suite, ALPN, curve (where both APIs expose it), DidResume, ECHAccepted and server name (== SNI on the wire, empty if none) are compared between the client's ConnectionState and the server's, and ExportKeyingMaterial is compared for drawn label/context/length; non-trivial = handshake completed on both sides; distinct = (fingerprint, plan, resumed, exporter arguments)",
 		Assumptions: []string{"curve is compared only where both APIs expose it (TLS 1.3 and TLS 1.2 ECDHE full handshakes)"},
 		Real:        []string{"utls client from /repo", "utls tls.Server or std crypto/tls server"},
 		Stub:        []string{"transport, clock, crypto/rand"},
@@ -168,11 +169,21 @@ func runC11(c *Ctx) {
 			stdcfg.ClientAuth = stdtls.VerifyClientCertIfGiven
 		}
 	}
+	// the server may hold ECH keys although this client offers none (or only a GREASE extension,
+	// which the server tries and fails to open): neither side may then report ECHAccepted
+	srvECH := ch.Bool(30, "server-ech-keys")
+	if srvECH {
+		keyRand := simrand.NewStream(ch.U64("ech-keys"))
+		if k, err := buildECH(keyRand, uint8(ch.Pick(256, "ech-cid")), "public.ech.test", 32, [][2]uint16{{1, 1}, {1, 3}}); err == nil {
+			scfg.EncryptedClientHelloKeys = []tls.EncryptedClientHelloKey{{Config: k.cfg, PrivateKey: k.priv, SendAsRetry: true}}
+			stdcfg.EncryptedClientHelloKeys = []stdtls.EncryptedClientHelloKey{{Config: k.cfg, PrivateKey: k.priv, SendAsRetry: true}}
+		}
+	}
 	nconn := 1
 	if history {
 		nconn = 2
 	}
-	c.R.Class = fmt.Sprintf("%s/%s %s hist=%v rmsni=%v sn=%s late=%v cauth=%d noreneg=%v ekm=%q/%d/%d", f.Kind, f.IDI.Name, plan, history, removeSNI, snShape, lateSNI, clientAuth, noReneg, label, len(ctx), length)
+	c.R.Class = fmt.Sprintf("%s/%s %s hist=%v rmsni=%v sn=%s late=%v cauth=%d noreneg=%v srvech=%v ekm=%q/%d/%d", f.Kind, f.IDI.Name, plan, history, removeSNI, snShape, lateSNI, clientAuth, noReneg, srvECH, label, len(ctx), length)
 	for i := 0; i < nconn; i++ {
 		spec := f.Spec()
 		var cEKM []byte
